@@ -591,6 +591,13 @@ func driveKeys(c *ctx) {
 		pub(append([]byte{2}, be32(xt)[:]...), true)
 		pub(append(append([]byte{4}, be32(xt)[:]...), be32(randBig(rng, bigP))[:]...), true)
 	}
+	for _, p := range curvePointsWithSmallY(rng, 4) { // y + p still fits 32 bytes: a non-canonical alias of a real point
+		pub(encUnc(p), false)
+		pub(append(append([]byte{4}, be32(p.x)[:]...), be32(new(big.Int).Add(p.y, bigP))[:]...), false)
+		if k, err := secec.ParseASN1PublicKey(func() []byte { q, _ := secec.NewPublicKey(encUnc(p)); return q.ASN1Bytes() }()); err == nil {
+			_ = k
+		}
+	}
 	for _, p := range curvePointsWithSmallX(rng, 4) {
 		pub(encUnc(p), false)
 		pub(append(append([]byte{4}, be32(new(big.Int).Add(p.x, bigP))[:]...), be32(p.y)[:]...), false)
@@ -619,11 +626,11 @@ func driveKeys(c *ctx) {
 		sh1, _ := k.ECDH(peerOf(rng))
 		_ = sh1
 		for j := range in {
-			in[j] ^= 0x5a
+			in[j] = byte(0x17 + j)
 		}
 		for _, sl := range [][]byte{k.Bytes(), k.PublicKey().Bytes(), k.PublicKey().CompressedBytes(), k.PublicKey().ASN1Bytes()} {
 			for j := range sl {
-				sl[j] ^= 0xa5
+				sl[j] = byte(0x42 + j)
 			}
 		}
 		sc := k.Scalar()
